@@ -10,6 +10,7 @@ import Acra.Drv.Ch11
 import Acra.Drv.Extra
 import Acra.Drv.AFDX
 import Acra.Drv.Foreign
+import Acra.Drv.ToRtc
 namespace Acra.Drv
 /- `Foreign.foreignCodecs` comes first: the same codecs with the operand-aware `eqOp` attached (first match wins) -/
 def allCodecs : List Codec := List.flatten [
@@ -35,6 +36,7 @@ def allFuncs : List Func := List.flatten [
   golay7Funcs,
   Ch11.ch11Funcs,
   ExtraC.extraFuncs,
-  AFDXC.afdxFuncs
+  AFDXC.afdxFuncs,
+  toRtcFuncs
 ]
 end Acra.Drv
